@@ -71,7 +71,14 @@ Theorem C19_chain_first_asks_for_pending : forall cfg st w id, w_cur w = Some id
     forall r, dec_cmd FUEL (cmd_of "zvt::packets::PartialReversal") (req ++ r) = Ok (pending_query_value, r).
 Proof. exact end_of_day_first_asks_for_pending. Qed.
 
+(* and the end-of-day request itself carries the configured password (for every password below 10^6) *)
+Theorem C19_end_of_day_request : forall cfg, c_password cfg < 10 ^ 6 ->
+  let req := mk_cmd "zvt::packets::EndOfDay" [VInt (c_password cfg)] nil in
+  req <> nil /\ forall r, dec_cmd FUEL (cmd_of "zvt::packets::EndOfDay") (req ++ r) = Ok (VRec [VInt (c_password cfg)], r).
+Proof. exact end_of_day_request_on_the_wire. Qed.
+
 Print Assumptions C19_pending_reports_receipt.
+Print Assumptions C19_end_of_day_request.
 Print Assumptions C19_chain_first_asks_for_pending.
 Print Assumptions C19_commit_busy_no_end_of_day.
 Print Assumptions C19_commit_idle_runs_cleanup.
